@@ -165,6 +165,19 @@ func (fc *FnCtx) findPkg(name string, tpkg *types.Package) *types.Package {
 				}
 			}
 		}
+		// an import written without alias whose package name is `name` (wins over an aliased import of a same-named package)
+		if p, ok := fc.eng.Pkgs[tpkg.Path()]; ok {
+			for _, f := range p.Syntax {
+				for _, is := range f.Imports {
+					if is.Name == nil {
+						path := strings.Trim(is.Path.Value, "\"")
+						if ip, ok := p.Imports[path]; ok && ip.Types != nil && ip.Types.Name() == name {
+							return ip.Types
+						}
+					}
+				}
+			}
+		}
 		for _, im := range tpkg.Imports() {
 			if im.Name() == name {
 				return im
